@@ -297,9 +297,13 @@ impl Monitor {
             return;
         }
         match pk {
-            Pk::ConnAck { sp, code, recv_max } => {
+            Pk::ConnAck { sp, code, recv_max, server_ka } => {
                 if *code == 0 {
                     self.resumed = Some(*sp);
+                    if let Some(ka) = server_ka {
+                        // MQTT 5, 3.2.2.3.14: the client uses the server's value
+                        self.keep_alive_ms = *ka as u64 * 1000;
+                    }
                     let carried = std::mem::take(&mut self.carried_q2);
                     if *sp && !self.manual {
                         self.inbound_q2 = carried;
